@@ -1,8 +1,8 @@
 use crate::{
     channel::Sender,
     graph::{
-        AnySource, AnySubscriber, ReactiveNode, SourceSet, Subscriber,
-        ToAnySubscriber,
+        untrack_with_diagnostics, AnySource, AnySubscriber, ReactiveNode,
+        SourceSet, Subscriber, ToAnySubscriber,
     },
 };
 use or_poisoned::OrPoisoned;
@@ -40,9 +40,24 @@ impl ReactiveNode for RwLock<EffectInner> {
 
         drop(guard);
 
-        sources
-            .into_iter()
-            .any(|source| source.update_if_necessary())
+        // The effect is only *checking* its sources here, not reading them, so it
+        // must not be the observer: a memo that changes while it is pulled indirectly
+        // (through another source) would otherwise skip this effect, as if the
+        // effect were about to read the new value, and the change would be lost.
+        let any_changed = untrack_with_diagnostics(|| {
+            sources
+                .into_iter()
+                .any(|source| source.update_if_necessary())
+        });
+
+        // A source that changed during the check has marked this effect dirty.
+        // That change is accounted for by the result of this check, so it must not
+        // cause a second run.
+        let mut guard = self.write().or_poisoned();
+        let dirty = guard.dirty;
+        guard.dirty = false;
+
+        any_changed || dirty
     }
 
     fn mark_check(&self) {
